@@ -254,6 +254,10 @@ class Builtin2Mixin:
             outs.append(Out('ok', t, self.py_none()))
         return outs
 
+    def bm_BaseException_with_traceback(self, st, selfv, args, node):
+        """exc.with_traceback(tb) returns exc itself (the traceback attribute is not modelled)"""
+        return self.ok(st, selfv)
+
     def bm_list___iter__(self, st, selfv, args, node):
         return self.ok(st, IterV('seq', seq=self.list_seq(st, r_of(selfv.term))))
 
